@@ -31,7 +31,10 @@ OWN = {
     "C04": {"no-overspend-at-every-prefix", "result-equals-simulation"},
     "C10": {"indices-strictly-increasing-in-range", "utilities-one-per-candidate", "result-equals-simulation",
             "state-after-update-equals-per-instance-commit", "window-after-update",
-            "manager-after-update-equals-per-instance-commit", "unmatched"},
+            "manager-after-update-equals-per-instance-commit", "unmatched",
+            "manager-commits-the-passing-candidates", "update-must-not-raise",
+            "manager-commits-the-passing-candidates[filtered-candidate-before-a-queried-one]",
+            "update-must-not-raise[filtered-candidate-before-a-queried-one]"},
 }
 INVARIANTS = {
     "C03": (["IndicesOK", "QueryPureInv"], []),
@@ -257,14 +260,15 @@ def _cognitive_job(arg):
 def cognitive_jobs(pid, quick, rng):
     jobs = []
     for kind in ("Fixed", "Variable", "RandomVariable", "Random"):
-        for n_ in range(60 if quick else 1500):
-            W, B = [(2, (1, 2)), (4, (1, 4)), (2, (1, 1)), (2, (1, 4))][n_ % 4]
+        for n_ in range(90 if quick else 2200):
+            W, B = [(2, (1, 2)), (4, (1, 4)), (2, (1, 1)), (2, (1, 4))][(n_ // 2) % 4]
             L = int(rng.integers(1, 11))
             xs = [int(x) for x in rng.integers(0, 5, size=L)]
             vs = [int(v) for v in rng.choice([0, 4, 8, 12, 16], size=L)]
             cuts = [c for c in range(1, L) if rng.random() < (0.0, 0.3, 0.6, 1.0)[n_ % 4]]
+            # force_full_budget: TRUE / FALSE (the default) alternate
             jobs.append((kind, bc.default_params(kind, W, B), int(rng.integers(1, 4)), int(rng.integers(0, 3)), xs, vs,
-                         cuts, pid == "C03" or n_ % 3 == 0, int(rng.integers(0, 50))))
+                         cuts, pid == "C03" or n_ % 3 == 0, int(rng.integers(0, 50)), n_ % 2 == 0))
     return jobs
 
 
